@@ -6,6 +6,7 @@ import (
 	"fmt"
 	"os"
 	"path/filepath"
+	"strconv"
 	"strings"
 	"testing"
 	"verif/harness/world"
@@ -282,7 +283,8 @@ func (o *c04) End(x *hctx) string {
 	checkObs(x.f, hist.Call("index a damaged tape", func() { ierr = w.Reindex(true, nil) }), "index rebuild of a tape with "+what)
 	live.S.AddInner(1)
 	// (record starts are those of the undamaged tape: the damage is in place)
-	starts := observe.TapeScan(x.r.W.TapeBytes(), x.cfg.RecordSize, false).Starts()
+	clean := observe.TapeScan(x.r.W.TapeBytes(), x.cfg.RecordSize, false)
+	starts := clean.Starts()
 	rows, _ := observe.IndexDump(w.DB)
 	rs := int64(x.cfg.RecordSize)
 	at := map[[2]int64]string{}
@@ -292,6 +294,20 @@ func (o *c04) End(x *hctx) string {
 		}
 		if _, ok := starts[(r.Record*rs+r.Block)*512]; !ok {
 			return fmt.Sprintf("index rebuilt (err=%v) from a tape with %s: row %q has position (%d,%d), which is not the start of a record", ierr, what, r.Name, r.Record, r.Block)
+		}
+		// where record headers are readable: a file's size is the size of the content that the
+		// record at its position carries (metadata-only records keep both)
+		if x.cfg.Encryption == "" && x.cfg.Signature == "" && r.Typeflag == int64('0') {
+			m := clean.Members[starts[(r.Record*rs+r.Block)*512]]
+			want := m.Hdr.Size
+			if v, ok := m.PAX["STFS.UncompressedSize"]; ok {
+				if n, err := strconv.ParseInt(v, 10, 64); err == nil {
+					want = n
+				}
+			}
+			if r.Size != want {
+				return fmt.Sprintf("index rebuilt (err=%v) from a tape with %s: %q has size %d and position (%d,%d), but the record there carries a content of %d bytes (it was written for %q)", ierr, what, r.Name, r.Size, r.Record, r.Block, want, m.Hdr.Name)
+			}
 		}
 		k := [2]int64{r.Record, r.Block}
 		if other, dup := at[k]; dup {
